@@ -144,6 +144,11 @@ fn main() {
                 if rng.chance(1, 6) {
                     ob.start_ms = Some(rng.range(0, 3000));
                 }
+                // boundary value of the transfer count (flute sends such an object once / once per carousel period):
+                // it must be announced like any other
+                if rng.chance(1, 6) {
+                    ob.max_transfer_count = 0;
+                }
             }
             let mut script: Vec<(When, Op)> = vec![];
             // first object at start; others at arbitrary packet indices / times
